@@ -10,6 +10,9 @@ What is proved here (for all tables, all words):
   word statements for *every* word and identify the rows with the orbit
   (`intersection_certificate_sound`, `core_certificate_sound`, `intersection_rows_are_orbit`,
   `core_rows_are_orbit`);
+* the models of `intersection_table` and `core_table` (loops, hash-map caches, `join`,
+  `compact()`) return, for all complete inverse-consistent inputs, exactly such a labelled
+  table of the orbit (`intersection_spec`, `core_spec`);
 * the model of `stabilizer` returns generators that fix the base row
   (`stabilizer_gens_fix_base`).
 Not proved (Spec only, see conf/C13.json): the returned generators generate the whole
@@ -19,6 +22,7 @@ relator-driven elimination).
 import DSymVerif.Model.Stabilizer
 import DSymVerif.Proofs.StabilizerProduct
 import DSymVerif.Proofs.StabilizerGens
+import DSymVerif.Proofs.StabilizerCore
 
 namespace DSymVerif.C13
 open DSymVerif DSymVerif.SpecC11 DSymVerif.SpecC13 DSymVerif.StabP DSymVerif.CosetP DSymVerif.Cosets
@@ -176,6 +180,90 @@ example : (match Stab.coreTable (Table.ofView 2 s3Table) with
 /-- a table that is not the orbit of the base pair fails the certificate (the input itself) -/
 example : intersectionCertificate s3Table signTable s3Table 2 = false := by decide +kernel
 example : coreCertificate s3Table s3Table 2 = false := by decide +kernel
+
+/-- ✔ `intersection_spec` (model level, all inputs).  Whenever the model of `intersection_table`
+    returns a table `T` for two complete, inverse-consistent tables, the rows of `T` are
+    numbered by a duplicate-free list `lab` of pairs that is **exactly the orbit of `(0, 0)`** in
+    the product action (a pair is listed iff some word carries row 0 of `ta` and row 0 of `tb`
+    to its components), row 0 is `(0, 0)`, and every entry `T[i][g]` is the number of the
+    componentwise image of the label of `i`.  (That the numbers are handed out in discovery
+    order is not part of the statement; the raw tables are compared with the implementation
+    on every run.) -/
+theorem intersection_spec (ta tb : Tab) (n : Nat)
+    (hca : complete ta n = true) (hcb : complete tb n = true)
+    (hia : inverseConsistent ta n = true) (hib : inverseConsistent tb n = true) (T : Table)
+    (h : Stab.intersectionTable (Table.ofView n ta) (Table.ofView n tb) = .ok T) :
+    ∃ lab : List (Nat × Nat),
+      T.len = lab.length ∧ lab.Nodup ∧ lab[0]? = some (0, 0) ∧
+      (∀ a b, (a, b) ∈ lab ↔ ∃ w, traceWord ta n 0 w = some a ∧ traceWord tb n 0 w = some b) ∧
+      (∀ i g a b, lab[i]? = some (a, b) → g ∈ letters n →
+        ∃ a' b' j, entry ta n a g = some a' ∧ entry tb n b g = some b' ∧
+          T.get i g = .ok (some j) ∧ lab[j]? = some (a', b')) := by
+  obtain ⟨lab, _, _, hsz, h0, hnd, hreach, hent⟩ :=
+    intersectionTable_spec hca hcb (inverseConsistent_spec hia) (inverseConsistent_spec hib) h
+  refine ⟨lab, hsz, hnd, h0, ?_, ?_⟩
+  · intro a b
+    constructor
+    · intro hm
+      obtain ⟨_, w, _, hw⟩ := hreach (a, b) hm
+      exact ⟨w, (iterAct_pair ta tb n w 0 0 a b).mp hw⟩
+    · rintro ⟨w, hw⟩
+      refine closed_of_entries (act := pairAct ta tb n) (n := n) ?_ w (trace_letters hw.1) (0, 0) (a, b)
+        (List.mem_of_getElem? h0) ((iterAct_pair ta tb n w 0 0 a b).mpr hw)
+      intro i g x hi hg
+      obtain ⟨y, j, hy, _, hj⟩ := hent i g x hi hg
+      exact ⟨y, hy, List.mem_of_getElem? hj⟩
+  · intro i g a b hi hg
+    obtain ⟨⟨a', b'⟩, j, hy, hget, hj⟩ := hent i g (a, b) hi hg
+    simp only [pairAct] at hy
+    cases h1 : entry ta n a g with
+    | none => simp [h1] at hy
+    | some a1 =>
+      cases h2 : entry tb n b g with
+      | none => simp [h1, h2] at hy
+      | some b1 =>
+        simp only [h1, h2, Option.some.injEq, Prod.mk.injEq] at hy
+        exact ⟨a', b', j, by rw [hy.1], by rw [hy.2], hget, hj⟩
+
+/-- ✔ `core_spec` (model level, all inputs).  Whenever the model of `core_table` returns a table
+    `T` for a complete, inverse-consistent table `t`, the rows of `T` are numbered by a
+    duplicate-free list `lab` of arrangements that is **exactly the set of arrangements
+    `(0·w, 1·w, …)` words induce** on the rows of `t` — the elements of the permutation group
+    generated by the action — row 0 is the identity arrangement, and every entry is the number
+    of the componentwise image. -/
+theorem core_spec (t : Tab) (n : Nat) (hc : complete t n = true) (hi : inverseConsistent t n = true)
+    (T : Table) (h : Stab.coreTable (Table.ofView n t) = .ok T) :
+    ∃ lab : List (List Nat),
+      T.len = lab.length ∧ lab.Nodup ∧ lab[0]? = some (List.range t.size) ∧
+      (∀ es, es ∈ lab ↔ ∃ w, arrangement t n w = some es) ∧
+      (∀ i g es, lab[i]? = some es → g ∈ letters n →
+        ∃ es' j, tupleAct t n es g = some es' ∧ T.get i g = .ok (some j) ∧ lab[j]? = some es') := by
+  obtain ⟨lab, _, _, hsz, h0, hnd, hreach, hent⟩ := coreTable_spec hc (inverseConsistent_spec hi) h
+  refine ⟨lab, hsz, hnd, h0, ?_, hent⟩
+  intro es
+  unfold arrangement
+  constructor
+  · intro hm
+    obtain ⟨_, w, _, hw⟩ := hreach es hm
+    exact ⟨w, by rw [← iterAct_tuple]; exact hw⟩
+  · rintro ⟨w, hw⟩
+    by_cases hpos : 0 < t.size
+    · have h00 := (mapOpt_some hw).2 0 (by simpa using hpos)
+      have hlen := (mapOpt_some hw).1
+      have hlt : 0 < es.length := by rw [hlen, List.length_range]; exact hpos
+      have hd0 : traceWord t n 0 w = some es[0] := by
+        simpa [hpos, hlt] using h00
+      rw [← iterAct_tuple] at hw
+      refine closed_of_entries (act := tupleAct t n) (n := n) ?_ w (trace_letters hd0) _ es
+        (List.mem_of_getElem? h0) hw
+      intro i g x hi' hg
+      obtain ⟨y, j, hy, _, hj⟩ := hent i g x hi' hg
+      exact ⟨y, hy, List.mem_of_getElem? hj⟩
+    · have hz : t.size = 0 := by omega
+      rw [hz] at hw h0
+      simp only [List.range_zero, mapOpt, Option.some.injEq] at hw h0
+      rw [← hw]
+      exact List.mem_of_getElem? h0
 
 /-- ✔ `stabilizer_gens_fix_base`.  On a complete, inverse-consistent table every generator the
     model of `stabilizer` returns (Schreier form `w_x · g · w_y⁻¹` with `x·g = y`, freely
